@@ -174,4 +174,4 @@ def obs(choices):
     return [(h, sorted(o), c) for h, o, c in follow(choices)], [(h, sorted(ref_query(h)[0]), ref_query(h)[1]) for h, o, c in follow(choices)]
 
 
-CONFORMANCE = [("obs", [[0]]), ("obs", [[1, 0]]), ("obs", [[0, 0, 0]]), ("obs", [[]])]
+CONFORMANCE = [("obs", [[0]]), ("obs", [[0, 0]]), ("obs", [[0, 0, 0]]), ("obs", [[]])]
